@@ -1,7 +1,7 @@
 """C17 — compilations are independent of one another."""
 from .common import *
 FIELDS = ('out', 'warns', 'prints', 'vars', 'cls', 'trace')
-RULE = 'histories of 2-12 compilations in one process (succeeding and failing programs, $-evaluated and plain uses of the same command, block keywords with and without a block, different options, reused and new Compiler objects, project configs) each step compared with the same compilation in a fresh process; distinct histories'
+RULE = 'histories of 2-12 compilations in one process (succeeding and failing programs, $-evaluated and plain uses of the same command, block keywords with and without a block, different options, reused and new Compiler objects, project configs) each step compared with the same compilation in a fresh process, and interpreter settings plus every module-/class-level attribute of the package compared before/after each history; distinct histories'
 ASSUMPTIONS = ['a freshly forked child of a parent that has imported the package but never compiled stands for a fresh process; a sample is re-run in a newly started interpreter in the thorough tier']
 SNIPPETS = [
     'GUI r', '$GUI "r"', 'HOLD a', '$HOLD 1+1', 'RELEASE a+b', 'STRING x', '$STRING 1+1', 'DELAY 5', 'ALT F4', '$ALT "F"+"4"',
@@ -33,6 +33,23 @@ def generate(g, tier):
                 steps.append(dict(op='compile', compiler=key, opts=opts, dir=f's{s}', src=dict(text=text)))
         cases.append(dict(op='history', steps=steps, meta=dict(family='history', nocorr=True)))
     cases += revisit_histories(g, count(tier, 40, 400))
+    # programs whose outcome depends on how much of the HOST's resources is left (a flat expression of about a thousand operands, the
+    # deepest legal call chain at a large stack limit) after compilations that failed or succeeded under large stack limits: interpreter-
+    # level settings (recursion limit, digit limit, working directory, environment) are process state too
+    SENSITIVE = ['$STRING ' + '+'.join(['1'] * n) for n in (900, 1100, 1200, 1500, 3000)] + \
+                ['\n'.join([f'FUNC g{k}\n    RUN g{k + 1}' for k in range(L - 2)] + [f'FUNC g{L - 2}\n    STRING bottom', 'RUN g0']) for L in (150, 199)]
+    FAILING = ['GUI xx', '$STRING 1/0', 'FUNC f\n    RUN f\nRUN f', 'RUN nosuch', 'STRING a\n  STRING b', '$STRING ' + '+'.join(['1'] * 1300)]
+    for _ in range(count(tier, 24, 120)):
+        steps = []
+        key = r.choice(['H', None])
+        hopts = dict(stack_limit=r.choice([63, 100, 150, 200, 400, 1000]))      # a reused Compiler keeps the options it was built with
+        for s in range(r.randint(1, 3)):
+            k = r.choice([key, None])
+            big = hopts if k else dict(stack_limit=r.choice([63, 100, 150, 200, 400, 1000]))
+            steps.append(dict(op='compile', compiler=k, opts=big, dir=f's{s}', src=dict(text=r.choice(FAILING + SNIPPETS[:6]))))
+        sens = r.choice(SENSITIVE)
+        steps.append(dict(op='compile', compiler=None, opts=(dict(stack_limit=200) if sens.startswith('FUNC') else r.choice([None, dict(stack_limit=200)])), dir='last', src=dict(text=sens)))
+        cases.append(dict(op='history', steps=steps, timeout=120, meta=dict(family='host-resources', nocorr=True)))
     return cases
 
 
@@ -71,6 +88,8 @@ def oracle(cases, results):
         if c.get('op') != 'history' or r.get('kind') != 'history': 
             if c.get('op') == 'history': fs.append(fail(i, f'history did not run: {r}', 'history:broken'))
             continue
+        if r.get('procDiff'):
+            fs.append(fail(i, f'the history left process-level state changed: {r["procDiff"][:3]}', 'history:process-state:' + r['procDiff'][0].split(':')[0]))
         for j, st in enumerate(c['steps']):
             single = {k: v for k, v in st.items() if k not in ('compiler', 'dir', 'reassign')}
             singles.append(single); where.append((i, j))
